@@ -146,9 +146,11 @@ type world struct {
 	kek tink.AEAD
 	ad  []byte
 
-	msgLen     int
-	weakExpect string // set while a fault-free image with an ENABLED hand-built weak key is being read
-	idCtr      uint64
+	msgLen      int
+	weakExpect  string // set while a fault-free image with an ENABLED hand-built weak key is being read
+	weakClass   string // its primitive class
+	weakPrimary bool   // it is the keyset's primary (producing primitives use the primary only)
+	idCtr       uint64
 
 	header       []string // trace lines of the shared set-up, repeated in the trace of every experiment
 	other        []byte   // a second stored keyset (splices), built on first use
@@ -996,6 +998,8 @@ func (w *world) experiment(b *built, medium []byte, orig *shape) (string, bool) 
 		faulted := len(fired) > 0 && plan != "weak"
 		if plan == "weak" && b.weakEnabled() {
 			w.weakExpect = b.weakKeyName
+			w.weakClass = b.classes[0]
+			w.weakPrimary = b.ks.PrimaryKeyId == b.weakID
 		}
 		o := w.check(img, readProt, sc, orig, written, faulted, "image")
 		w.weakExpect = ""
